@@ -42,6 +42,24 @@ CLAIMED["C18"] = ("Unbounded proof over all paths of every function that can rea
   "through a handle opened O_RDONLY are refused by the OS without effect; the OpenFile callback honours its flag; 'serves exactly the persisted content' is the "
   "open path of C04 and is not decided here. Fixed finding S8 (fix: 8eb6f9b).", "6/C18")
 
+CLAIMED["C07"] = ("Unbounded proof of the structural half of compaction: mergeSegStacks yields footer.ss.a[splice:] ++ higher.a for the collection and, for every child, the "
+  "child footer's segments of the SAME incarnation followed by the incoming ones (children compacted fully); spliceFooter restores exactly the retained prefix; the footer "
+  "written by writeSegments has one segment, the incarnation of its stack and that stack's children. P0 (no slice out of range) included.",
+  "Not under contract yet: that the merged segment written by mergeInto/compactWriter has the same content as the stack it replaces (needs the heap-iterator contract, C09), "
+  "absence of deletion markers after full compaction, and removal of superseded files (C15). writeSegments has a thin contract (frame unchecked, I/O abstracted). "
+  "Fixed findings S9, S10, S11.", "6/C07")
+CLAIMED["C11"] = ("Unbounded proof, level by level over the child trees (recursion by contract, map-range invariants): buildNewFooter, mergeSegStacks, spliceFooter, writeSegments "
+  "and revertToSnapshot preserve the set of child collections, keep a child's persisted segments only for the same incarnation (a recreated child starts empty) and "
+  "drop deleted children; child maps never hold nil.",
+  "Each activation proves its own level and the level below (tree-wide statement by induction over activations, not machine-checked). Not under contract yet: "
+  "buildStackDirtyTop/appendChildStacks (in-memory side), restoreCollection, isolation of reads. Known finding S16b (revert drops child data at the next persist); "
+  "fixed S9, S10, S11.", "6/C11")
+CLAIMED["C12"] = ("Unbounded proof of the history chain: buildNewFooter links every new footer to the footer that was current; snapshotPrevious returns what the recovery scan finds "
+  "at exactly that offset of the same file; SnapshotRevert installs a footer with exactly the segment locations (and children) of the target, durably appended via "
+  "persistFooter, linked to the footer that was current, and later rounds build on it (buildNewFooter from s.footer).",
+  "Assumed: the recovery scan returns the footer at the offset it is started from (C05), persistFooter writes what it is given (trusted here), JSON round trip. "
+  "Known finding S16b (child data of a reverted snapshot is dropped by the next persist); fixed S16 (history link).", "6/C12")
+
 NA_REASONS = {
  "C17": "data-race freedom in the Go memory model is a whole-program property over every access (incl. runtime, mmap-go, ghistogram); no contract within reach of a "
         "sequential VC generator decides it (DESIGN.md section 7)",
